@@ -3,7 +3,35 @@
 Every random choice comes from the `random.Random` passed in.  The encoder reads only *raw magnitudes of
 already-constructed objects* (q.raw_value, atmo._t0, ...) so the model never sees preferred units.
 """
+import contextlib
+import signal
+import threading
+
 from vlib.common import f2b
+
+OP_LIMIT = 60.0     # seconds one call of the real code may take inside a harness operation (the slowest on the unchanged tree: ~20 s)
+
+
+class OpTimeout(Exception):
+    pass
+
+
+@contextlib.contextmanager
+def time_limit(seconds=None):
+    """a call into the real code that does not come back is an OUTCOME ('err:timeout'), not a hung check (main thread only)"""
+    if threading.current_thread() is not threading.main_thread():
+        yield
+        return
+
+    def handler(signum, frame):
+        raise OpTimeout()
+    old = signal.signal(signal.SIGALRM, handler)
+    signal.setitimer(signal.ITIMER_REAL, seconds or OP_LIMIT)
+    try:
+        yield
+    finally:
+        signal.setitimer(signal.ITIMER_REAL, 0)
+        signal.signal(signal.SIGALRM, old)
 
 TABLE_NAMES = ['TableG1', 'TableG7', 'TableG2', 'TableG5', 'TableG6', 'TableG8', 'TableGI', 'TableGS', 'TableRA4']
 CFG_FIELDS = ['max_calc_step_size_feet', 'chart_resolution', 'cZeroFindingAccuracy', 'cMinimumVelocity', 'cMaximumDrop',
@@ -104,6 +132,44 @@ def gen_shot(pbc, rng, *, flat=False, allow_cant=True, max_look=60.0, winds=None
     return shot, table
 
 
+def edit_in_place(pbc, rng, shot):
+    """the user edits an existing shot IN PLACE (assigns public attributes of the very objects a calculator has already seen);
+    returns a description.  Only raw magnitudes read at call time may matter to a computation, never what an object held earlier."""
+    U = pbc.Unit
+    edits = []
+    ws = list(shot._winds)
+    if ws:
+        edits += [lambda: setattr(rng.choice(ws), 'velocity', U.MPH(rng.choice([0.0, rng.uniform(0, 30)]))),
+                  lambda: setattr(rng.choice(ws), 'direction_from', U.Degree(rng.choice([0.0, 90.0, 180.0, 270.0, rng.uniform(-180, 360)]))),
+                  lambda: [setattr(w, 'direction_from', U.Radian(-w.direction_from.raw_value)) for w in ws],   # mirror the whole list
+                  lambda: [setattr(w, 'velocity', U.MPS(0)) for w in ws]]
+    edits += [lambda: setattr(shot, 'look_angle', U.Degree(rng.choice([0.0, rng.uniform(-30, 30)]))),
+              lambda: setattr(shot, 'relative_angle', U.Mil(rng.uniform(-1, 3))),
+              lambda: setattr(shot, 'cant_angle', U.Degree(rng.choice([0.0, rng.uniform(-45, 45)]))),
+              lambda: setattr(shot.weapon, 'sight_height', U.Inch(rng.uniform(0, 4))),
+              lambda: setattr(shot.weapon, 'zero_elevation', U.Mil(rng.uniform(0, 6))),
+              lambda: setattr(shot.weapon, 'twist', U.Inch(rng.choice([0.0, 9.0, -11.0]))),
+              lambda: setattr(shot.ammo, 'mv', U.FPS(rng.uniform(1500, 3300))),
+              lambda: setattr(shot.ammo, 'powder_temp', U.Celsius(rng.uniform(-10, 30))),
+              lambda: setattr(shot.ammo, 'use_powder_sensitivity', not shot.ammo.use_powder_sensitivity),
+              lambda: setattr(shot.ammo, 'temp_modifier', rng.choice([0.0, rng.uniform(0.001, 0.03)])),
+              lambda: setattr(shot.atmo, 'humidity', rng.uniform(0, 1))]
+    k = rng.randrange(len(edits))
+    edits[k]()
+    return k
+
+
+def gen_lob(pbc, rng):
+    """a low-drag projectile lobbed at 75-88 degrees: subsonic on the way up, supersonic again in thin air on the way down,
+    moving backwards in a head wind - the corners flat rifle shots never reach (several sonic crossings, vx <= 0 rows)"""
+    U = pbc.Unit
+    dm = pbc.DragModel(rng.uniform(1.5, 5.0), getattr(pbc, rng.choice(['TableG1', 'TableG7'])), U.Grain(rng.uniform(300, 800)), U.Inch(0.5), U.Inch(2.0))
+    ammo = pbc.Ammo(dm, U.FPS(rng.uniform(2000, 3000)))
+    weapon = pbc.Weapon(U.Inch(2), rng.choice([0, 10]))
+    winds = [] if rng.random() < 0.5 else [pbc.Wind(U.MPH(rng.uniform(5, 30)), U.Degree(rng.choice([0.0, 180.0, 90.0])))]
+    return pbc.Shot(weapon, ammo, U.Degree(0), U.Degree(rng.uniform(75, 88)), U.Degree(0), pbc.Atmo.icao(), winds)
+
+
 def enc_config(cfg):
     return ' '.join([fb(cfg.max_calc_step_size_feet), fb(cfg.chart_resolution), fb(cfg.cZeroFindingAccuracy), fb(cfg.cMinimumVelocity),
                      fb(cfg.cMaximumDrop), str(int(cfg.cMaxIterations)), fb(cfg.cGravityConstant), fb(cfg.cMinimumAltitude)])
@@ -154,8 +220,11 @@ def py_fire(pbc, calc, shot, rng_ft, step_ft, extra, time_step):
     """runs TrajectoryCalc.trajectory on raw feet values; returns the canonical answer string"""
     U = pbc.Unit
     try:
-        rows = calc._calc.trajectory(shot, U.Foot(rng_ft), U.Foot(step_ft), extra, time_step)
+        with time_limit():
+            rows = calc._calc.trajectory(shot, U.Foot(rng_ft), U.Foot(step_ft), extra, time_step)
         return 'ok ' + enc_rows(rows)
+    except OpTimeout:
+        return 'err:timeout'
     except pbc.RangeError as e:
         return f'err:range {REASONS[e.reason]} ' + enc_rows(e.incomplete_trajectory)
     except ZeroDivisionError:
@@ -171,3 +240,50 @@ def fire_line(pbc, calc, shot, rng_ft, step_ft, extra, time_step, cfg=None):
     r = U.Foot(rng_ft) >> U.Foot
     s = U.Foot(step_ft) >> U.Foot
     return f'fire {enc_config(cfg if cfg is not None else calc._calc._config)} {enc_shot(pbc, shot)} {fb(r)} {fb(s)} {flags} {fb(time_step)}'
+
+
+def scramble_units(pbc, rng, *objs, depth=3):
+    """Re-label the DISPLAY unit of every quantity reachable from the given objects (q << random unit of its own dimension).
+    Raw magnitudes are untouched, so no computation may change (C07, C13); used between construction and use."""
+    by_dim = {}
+    for u in pbc.Unit:
+        by_dim.setdefault(type(u(1.0)), []).append(u)
+    seen = set()
+
+    def relabel(q):
+        return q << rng.choice(by_dim[type(q)])
+
+    def walk(o, d):
+        if id(o) in seen or d < 0 or o is None:
+            return
+        seen.add(id(o))
+        if isinstance(o, pbc.AbstractDimension):
+            relabel(o)
+            return
+        if isinstance(o, list):
+            for i, x in enumerate(o):
+                if isinstance(x, pbc.AbstractDimension):
+                    o[i] = relabel(x)
+                else:
+                    walk(x, d - 1)
+            return
+        if isinstance(o, tuple):
+            for x in o:
+                walk(x, d - 1)
+            return
+        if type(o).__module__.startswith('py_ballisticcalc') and hasattr(o, '__dict__'):
+            for k, v in list(vars(o).items()):
+                if isinstance(v, pbc.AbstractDimension):
+                    if id(v) in seen:
+                        continue
+                    seen.add(id(v))
+                    nv = relabel(v)
+                    if nv is not v:          # should `convert` ever return a new object, store it where the old one was
+                        try:
+                            setattr(o, k, nv)
+                        except Exception:  # noqa
+                            pass
+                else:
+                    walk(v, d - 1)
+    for o in objs:
+        walk(o, depth)
